@@ -4,12 +4,14 @@ import (
 	"fmt"
 	"strings"
 
+	. "verifharness/hlib"
+
 	"github.com/cnotch/ipchub/provider/auth"
 )
 
 // C16: permission patterns.  Implementation: a fresh auth.User initialised through
 // CopyFrom (→ init → initMatchers → NewPathMatcher) and ValidatePermission.
-func init() { runners["C16"] = runC16 }
+func main() { Main("C16", runC16) }
 
 func implPermit(right string, admin bool, path string) (res bool, panicked string) {
 	defer func() {
@@ -59,7 +61,7 @@ func runC16(c *Ctx) {
 	for _, l := range c.CorpusLines() {
 		f := strings.Fields(l)
 		if len(f) == 5 && f[0] == "c16" && f[1] == "permit" {
-			add(string(unhx(f[2])), f[3] == "1", string(unhx(f[4])))
+			add(string(Unhx(f[2])), f[3] == "1", string(Unhx(f[4])))
 		}
 	}
 	// the documented examples (docs/config.md §3.2)
@@ -86,12 +88,12 @@ func runC16(c *Ctx) {
 		// all rights × paths of length ≤ 3 fully; longer paths sampled per right
 		for _, r := range rs {
 			for _, p := range ps {
-				if len(r)+len(p) <= 6 || c.rng.Intn(400) == 0 {
+				if len(r)+len(p) <= 6 || c.Rng.Intn(400) == 0 {
 					add(r, false, p)
 				}
 			}
 		}
-		c.res.Exhaustive = false
+		c.Res.Exhaustive = false
 		c.Note("all (right,path) pairs over {a,A,b,+,*,/,;,space} with |right|+|path| ≤ 6 enumerated completely; longer ones sampled")
 	}
 	// random structured pairs biased to near-matches
@@ -99,82 +101,82 @@ func runC16(c *Ctx) {
 	n := c.Budget(60000, 600000)
 	for i := 0; i < n; i++ {
 		var right string
-		np := 1 + c.rng.Intn(3)
+		np := 1 + c.Rng.Intn(3)
 		var pats []string
 		for j := 0; j < np; j++ {
-			ns := 1 + c.rng.Intn(4)
+			ns := 1 + c.Rng.Intn(4)
 			var ss []string
 			for k := 0; k < ns; k++ {
-				w := segsAlpha[c.rng.Intn(len(segsAlpha))]
-				if !c.rng.Chance(12) && strings.ContainsAny(w, " ") {
+				w := segsAlpha[c.Rng.Intn(len(segsAlpha))]
+				if !c.Rng.Chance(12) && strings.ContainsAny(w, " ") {
 					w = "a"
 				}
 				ss = append(ss, w)
 			}
 			p := strings.Join(ss, "/")
-			if c.rng.Chance(70) {
+			if c.Rng.Chance(70) {
 				p = "/" + p
 			}
-			if c.rng.Chance(10) {
+			if c.Rng.Chance(10) {
 				p = " " + p + " "
 			}
 			pats = append(pats, p)
 		}
 		right = strings.Join(pats, ";")
-		if c.rng.Chance(5) {
+		if c.Rng.Chance(5) {
 			right = ""
 		}
 		// path: derive from one pattern (near-match) or random
 		var path string
-		if c.rng.Chance(70) && len(pats) > 0 {
-			base := strings.Split(strings.Trim(strings.TrimSpace(pats[c.rng.Intn(len(pats))]), "/"), "/")
+		if c.Rng.Chance(70) && len(pats) > 0 {
+			base := strings.Split(strings.Trim(strings.TrimSpace(pats[c.Rng.Intn(len(pats))]), "/"), "/")
 			var ss []string
 			for _, s := range base {
 				switch {
 				case s == "+":
-					ss = append(ss, segsAlpha[c.rng.Intn(4)])
+					ss = append(ss, segsAlpha[c.Rng.Intn(4)])
 				case s == "*":
-					for k := c.rng.Intn(3); k > 0; k-- {
+					for k := c.Rng.Intn(3); k > 0; k-- {
 						ss = append(ss, "x")
 					}
 				default:
-					if c.rng.Chance(10) {
-						s = segsAlpha[c.rng.Intn(len(segsAlpha))]
+					if c.Rng.Chance(10) {
+						s = segsAlpha[c.Rng.Intn(len(segsAlpha))]
 					}
-					if c.rng.Chance(20) {
+					if c.Rng.Chance(20) {
 						s = strings.ToUpper(s)
 					}
 					ss = append(ss, s)
 				}
 			}
-			if c.rng.Chance(10) {
+			if c.Rng.Chance(10) {
 				ss = append(ss, "z")
 			}
-			if c.rng.Chance(10) && len(ss) > 0 {
+			if c.Rng.Chance(10) && len(ss) > 0 {
 				ss = ss[:len(ss)-1]
 			}
 			path = "/" + strings.Join(ss, "/")
 		} else {
-			l := c.rng.Intn(7)
+			l := c.Rng.Intn(7)
 			b := make([]byte, l)
 			for k := range b {
-				b[k] = c.rng.Pick(alpha)
+				b[k] = c.Rng.Pick(alpha)
 			}
 			path = string(b)
 		}
-		add(right, c.rng.Chance(15), path)
+		add(right, c.Rng.Chance(15), path)
 	}
 
 	lines := make([]string, len(cases))
 	for i, k := range cases {
-		lines[i] = fmt.Sprintf("c16 permit %s %s %s", hx([]byte(k.right)), b01(k.admin), hx([]byte(k.path)))
+		lines[i] = fmt.Sprintf("c16 permit %s %s %s", Hx([]byte(k.right)), B01(k.admin), Hx([]byte(k.path)))
 	}
 	outs := c.Drive(lines)
-	c.res.Rule = "case = (right string, admin flag, path); distinct by the triple; non-trivial when the right has at least one non-empty pattern and the path is non-empty"
+	c.Res.Rule = "case = (right string, admin flag, path); distinct by the triple; non-trivial when the right has at least one non-empty pattern and the path is non-empty"
 	for i, k := range cases {
 		got, pan := implPermit(k.right, k.admin, k.path)
-		m := kv(outs[i])
-		impl := b01(got)
+		m := KV(outs[i])
+		impl := B01(got)
 		if pan != "" {
 			impl = "panic"
 		}
